@@ -76,8 +76,8 @@ int main(void)
    if (line.len > 100) { respond("x"); continue; }
    if (line.s[line.len - 1]) { respond("x"); continue; } /* impossible */
    for (i = 5;i < line.len - 1;++i)
-     if ((unsigned char) (line.s[i] - '0') > 9)
-      { respond("x"); continue; }
+     if ((unsigned char) (line.s[i] - '0') > 9) break;
+   if (i < line.len - 1) { respond("x"); continue; }
    if (!scan_ulong(line.s + 5,&id)) { respond("x"); continue; }
    if (byte_equal(line.s,5,"foop/"))
     {
